@@ -12,7 +12,7 @@ PID = "C07"
 def jobs(tier):
     out = []
     n, d, fc, sc = 10, 3, 1000, 2
-    start = rf.first_sample_of_ms(1394368230000 // 2000 * 2000, n, d)
+    start = rf.first_sample_of_ms(1394333998000 // 2000 * 2000, n, d)
     nsubs = (1, 2) if tier == "quick" else (1, 2, 3)
     extra_rates = [(200, 3, 400, 2)] if tier == "quick" else [(200, 3, 400, 2), (7, 2, 1000, 3), (2, 3, 2000, 4)]
     for kind, size in U.TYPE_KINDS:
@@ -20,7 +20,7 @@ def jobs(tier):
             for cplx in (False, True):
                 for nsub in nsubs:
                     for (n_, d_, fc_, sc_) in [(n, d, fc, sc)] + extra_rates:
-                        st = start if (n_, d_) == (n, d) else rf.first_sample_of_ms(1394368230000 // (sc_ * 1000) * (sc_ * 1000), n_, d_)
+                        st = start if (n_, d_) == (n, d) else rf.first_sample_of_ms(1394333998000 // (sc_ * 1000) * (sc_ * 1000), n_, d_)
                         if (n_, d_) == (200, 3) and tier == "quick" and (nsub != 1 or order == ">"):
                             continue
                         out.append(dict(kind=kind, size=size, order=order, cplx=cplx, nsub=nsub, n=n_, d=d_, fc=fc_, sc=sc_, start=st))
